@@ -37,4 +37,15 @@ structure Rule where
   pos : Nat
   deriving Repr, DecidableEq
 
+/-- panic-containment fact about one Go function of the package: does it install a deferred
+    `recover` handler, and which package functions does it call *outside* that handler's
+    protection (every call if it has none; the handler's own calls count as unprotected) -/
+structure FnFact where
+  name : String
+  recovers : Bool
+  unprot : List String
+  stages : List String     -- "error in <stage>" prefixes wrapped around errors in the body
+  bareErr : Nat            -- `return …, err` statements that hand an error back unwrapped
+  deriving Repr, DecidableEq
+
 end Gen
